@@ -377,7 +377,10 @@ def gen_actor_case(rng, name, props, logger=False):
     if logger:
         levels = rng.choice([["open"], ["info"], ["off"], ["trace", "open"], ["error", "audit"],
                              ["warn", "close"], ["audit"], ["debug", "audit", "open"]])
-        ops.append({"op": "setlogger", "levels": levels, "sink": rng.random() < 0.3})
+        late_logger = rng.random() < 0.2      # installed only after some actors exist: ids were handed out all along
+        first_logger = {"op": "setlogger", "levels": levels, "sink": (not late_logger) and rng.random() < 0.3}
+        if not late_logger:
+            ops.append(first_logger)
 
     def init_item(kind, depth=0):
         it = {"id": ids.next("item"), "ops": [], "ret": "none"}
@@ -497,7 +500,9 @@ def gen_actor_case(rng, name, props, logger=False):
         return it
 
     nsteps = rng.randrange(2, 8)
-    for _ in range(nsteps):
+    for stepno in range(nsteps):
+        if logger and late_logger and stepno == 1:
+            ops.append(first_logger)
         for _ in range(rng.randrange(1, 6)):
             if budget[0] <= 0:
                 break
@@ -531,7 +536,16 @@ def gen_actor_case(rng, name, props, logger=False):
                             "item": {"id": ids.next("item"), "ops": [], "ret": rng.choice(["some", "none"])}})
             elif c < 0.58 and owners:
                 oid = rng.choice(list(owners))
-                ops.append({"op": "owndrop", "oid": oid})
+                if rng.random() < 0.25:
+                    # the owner (and maybe a Ret) goes because the frame holding it panics
+                    op = {"op": "unwinddrop", "oids": [oid], "rids": []}
+                    if rets and rng.random() < 0.5:
+                        op["rids"].append(rets.pop(rng.randrange(len(rets))))
+                    ops.append(op)
+                else:
+                    ops.append({"op": "owndrop", "oid": oid})
+                if rng.random() < 0.4:
+                    ops.append({"op": "zombie", "aid": owners[oid]})     # not a Zombie before the queued termination has run
                 owners.pop(oid, None)
             elif c < 0.64 and owners:
                 oid = rng.choice(list(owners))
